@@ -69,6 +69,7 @@ func caseOptions(r *common.Run, n int) raftsim.Options {
 	if o.Voters >= 3 && rng.Intn(3) == 0 {
 		o.Voters = 3
 	}
+	o.LongPartitions = rng.Intn(3) == 0
 	switch r.Prop {
 	case "C01":
 		o.AllowDup = false // the quantifier of C01 excludes duplication
@@ -77,6 +78,8 @@ func caseOptions(r *common.Run, n int) raftsim.Options {
 		o.Keys = 2
 		// reads on followers and non-voting replicas while leaders are cut off
 		o.NonVotings, o.WConfigChange, o.WPartition = 1, 2, 2
+		o.PreferNonVoting = true
+		o.LongPartitions = rng.Intn(2) == 0
 	case "C06":
 		o.WRead, o.WPartition, o.WTransfer = 10, 2, 2
 		// C06 quantifies over heartbeat loss/duplication/reordering; a duplicated
@@ -148,9 +151,9 @@ func main() {
 		fmt.Println(string(b))
 		return
 	}
-	total := r.Pick(1600, 160000)
-	if r.Prop == "C17" {
-		total = r.Pick(1600, 160000)
+	total := r.Pick(6400, 160000)
+	if r.Prop == "C01" {
+		total = r.Pick(3200, 160000) // every history also goes through porcupine
 	}
 	for _, n := range r.MyCases(total) {
 		opt := caseOptions(r, n)
